@@ -26,6 +26,9 @@ PROPS = {
              assumptions=["per unit, requests come either from the unit itself or from one issuer, so accepted requests are totally ordered; a request overlapping a scheduling point may be honoured at that point or the next"]),
     "C14": P(60000, 1500000, expect_reach=["c14.translation_queries", "c14.units_created"],
              assumptions=["unit handles are crafted integers that all hash to one bucket of the 256-entry table; translations are queried only for units that cannot move or be freed meanwhile (the caller's own unit, or a suspended ULT)"]),
+    "C15": P(60000, 1500000, expect_reach=["c15.mempool_allocs", "c15.mempool_cross_thread_frees"],
+             assumptions=["the white-box driver uses ABTI_mem_pool_* exactly as abti_mem.h does (one local pool per simulated thread, blocks may be freed to any local pool of the same global pool)",
+                          "stack sizes 16 KiB..2 MiB (+50%) in the quick tier, up to 16 MiB in the thorough tier; with stack guards enabled the two lowest pages are not written"]),
     "C16": P(60000, 1500000, expect_reach=["c16.remote_sets_while_owner_runs", "c16.destructor_calls"],
              assumptions=["every (unit,key) pair has a single writer (the owner or one remote setter), so the expected value is unique; ABT_KEY_TABLE_SIZE is randomised in {1,...,64}"]),
     "C17": P(60000, 1500000, expect_reach=["c17.lin_decided"],
